@@ -42,6 +42,9 @@ type c11Case struct {
 	// Expired: indices of calls of a multi whose context had ended before the request
 	// was built (the client leaves them out of the request)
 	Expired []int `json:"expired,omitempty"`
+	// Abandoned: indices of calls of a multi whose context ends while the request is in flight
+	// (after it was written, before the response is read)
+	Abandoned []int `json:"abandoned,omitempty"`
 }
 
 var hostile = []int64{0, 1, 2, 9, 10, 12, 13, 14, 255, 256, 65535, 65536, 0x7fffffff, 0x80000000, 0xffffffff, -1, -2}
@@ -80,6 +83,7 @@ func exactCap(b []byte) []byte {
 
 func c11Run(c c11Case) (out Outcome) {
 	var stage string
+	var abandon []context.CancelFunc
 	defer func() {
 		if p := recover(); p != nil {
 			st := string(debug.Stack())
@@ -160,6 +164,17 @@ func c11Run(c c11Case) (out Outcome) {
 			if len(block) > 0 {
 				block = block[:((m.Pos%len(block))+len(block))%len(block)]
 			}
+		case "cbcut":
+			// cut 0..5 bytes into a cell: where a length prefix is expected there are fewer than 4 bytes
+			if len(offs) > 0 {
+				at := offs[((m.Index%len(offs))+len(offs))%len(offs)].kv + m.Pos%6
+				if at < len(block) {
+					block = block[:at]
+				}
+			}
+		case "cbextra":
+			// 1..3 stray bytes behind the last cell
+			block = append(block, []byte{0, 0, 1}[:1+m.Pos%3]...)
 		}
 	}
 	ctx := context.Background()
@@ -229,6 +244,10 @@ func c11Run(c c11Case) (out Outcome) {
 		for _, e := range c.Expired {
 			expired[e] = true
 		}
+		abandoned := map[int]bool{}
+		for _, e := range c.Abandoned {
+			abandoned[e] = true
+		}
 		for i, n := range counts {
 			var call hrpc.Call
 			cctx := ctx
@@ -236,6 +255,10 @@ func c11Run(c c11Case) (out Outcome) {
 				dead, cancel := context.WithCancel(ctx)
 				cancel()
 				cctx = dead
+			} else if abandoned[i] {
+				actx, cancel := context.WithCancel(ctx)
+				abandon = append(abandon, cancel)
+				cctx = actx
 			}
 			if i%2 == 0 {
 				g, _ := hrpc.NewGet(cctx, []byte("t"), []byte("r"))
@@ -368,7 +391,13 @@ func c11Run(c c11Case) (out Outcome) {
 		}(i, call)
 	}
 	doneCh := make(chan region.VerifReceiveResult, 1)
-	go func() { doneCh <- region.VerifReceive(calls, asMulti, codec, 7, frame) }()
+	go func() {
+		doneCh <- region.VerifReceiveAfter(calls, asMulti, codec, 7, frame, func() {
+			for _, cancel := range abandon {
+				cancel()
+			}
+		})
+	}()
 	var res region.VerifReceiveResult
 	select {
 	case res = <-doneCh:
@@ -404,6 +433,9 @@ func c11Run(c c11Case) (out Outcome) {
 			skip := map[int]bool{}
 			if asMulti {
 				for _, e := range c.Expired {
+					skip[e] = true
+				}
+				for _, e := range c.Abandoned {
 					skip[e] = true
 				}
 			}
@@ -550,7 +582,7 @@ func c11MutateMulti(mr *pb.MultiResponse, muts []c11Mut) {
 	}
 }
 
-var c11CellFields = []string{"kvlen", "keylen", "vallen", "rowlen", "famlen", "cbflip", "cbtrunc", "kvwrap", "kvwrap"}
+var c11CellFields = []string{"kvlen", "keylen", "vallen", "rowlen", "famlen", "cbflip", "cbtrunc", "cbcut", "cbcut", "cbextra", "kvwrap", "kvwrap"}
 var c11FrameFields = []string{"cbmeta", "callid", "exc", "nomsg", "flip", "trunc", "sizefield", "blocklen", "chunklen", "assoc"}
 var c11ScanFields = []string{"cpr", "cpr-add", "cpr-del", "pfr-add", "pfr-del"}
 var c11MultiFields = []string{"mindex", "mnoindex", "mneither", "mboth", "mexc", "massoc", "mregions", "mregionexc", "mdup", "mdrop"}
@@ -611,6 +643,12 @@ func c11Gen(t *rapid.T) c11Case {
 		ne := rapid.IntRange(1, 2).Draw(t, "nexpired")
 		for i := 0; i < ne; i++ {
 			c.Expired = append(c.Expired, rapid.IntRange(0, nres-1).Draw(t, "expiredidx"))
+		}
+	}
+	if c.Target == "rx-multi" && nres > 0 && rapid.IntRange(0, 2).Draw(t, "abandoned") == 0 {
+		na := rapid.IntRange(1, 2).Draw(t, "nabandoned")
+		for i := 0; i < na; i++ {
+			c.Abandoned = append(c.Abandoned, rapid.IntRange(0, nres-1).Draw(t, "abandonedidx"))
 		}
 	}
 	if c.Target[:2] == "rx" && rapid.IntRange(0, 19).Draw(t, "raw") == 0 {
